@@ -274,6 +274,10 @@ func jsonHistExec(toks []string) string {
 				continue
 			}
 			by, err := histGoEncode(code, v)
+			if err == nil && code == "gj" && jsonJudge(by) == "malformed" {
+				// what GoToJson writes is not compared with a model, but it has to be JSON
+				err = fmt.Errorf("GoToJson wrote text that is not JSON")
+			}
 			if err != nil {
 				out = append(out, "err")
 				continue
